@@ -252,12 +252,9 @@ class Bmc:
                     return b'\xcc'
                 if d[5] == 0xaa:
                     self.sel = []
-                    self.sel_erase = 1
-                    return b'\x00\x00'            # erasure in progress
+                    return b'\x00\x01'            # erase completed
                 if d[5] == 0x00:
-                    st = 0 if self.sel_erase > 0 else 1
-                    self.sel_erase -= 1
-                    return b'\x00' + bytes([st])
+                    return b'\x00\x01'
                 return b'\xcc'
             if cmd == 0x20 and not d:
                 return b'\x00' + bytes([0x51]) + le(len(self.sdrs), 2) + le(0x800, 2) + le(0x5f000000, 4) + le(0x5e000000, 4) + b'\x2f'
